@@ -188,7 +188,8 @@ def dispatch(d, is_async, text):
 # ---- jsonschema --------------------------------------------------------------------------------------------------
 def gen_js(ctx):
     maxn = ctx.pick(2, 3)
-    frs = ['none', 'int', 'enum', 'range'] if ctx.quick else list(FRAGS)
+    # (x4range / div3 only mean something under the dialect they belong to: they appear in the "$schema" cases below, never in undeclared schemas)
+    frs = ['none', 'int', 'enum', 'range'] if ctx.quick else [f for f in FRAGS if f not in ('x4range', 'div3')]
     for sig in js_signatures(maxn):
         n = len(sig)
         if n == 3:
